@@ -16,7 +16,7 @@ use lightning_signer::policy::validator::EnforcementState;
 use lightning_signer::signer::derive::KeyDerivationStyle;
 use lightning_signer::lightning::types::payment::PaymentHash;
 use lightning_signer::tx::tx::{CommitmentInfo2, HTLCInfo2};
-use lightning_signer::util::clock::StandardClock;
+use lightning_signer::util::clock::{Clock, ManualClock};
 use lightning_signer::util::status::{Code, Status};
 use lightning_signer::util::test_utils::*;
 use std::collections::{BTreeMap, BTreeSet};
@@ -42,6 +42,8 @@ pub fn content(c: u64) -> (u64, u64) {
     match c % 16 {
         b @ 0..=3 => (2_999_000 - 100 * b, 0),
         b @ 4..=8 => (2_980_000 - 10_100 * (b - 3), 0),
+        // base 10: one OFFERED (outgoing) HTLC of 10_000 sat backed by the keysend for OUT_HASHES[0]
+        10 => (2_960_000, 0),
         // fee of 2M sat on ~724 weight units: far above max_feerate_per_kw
         _ => (1_000_000, 0),
     }
@@ -55,15 +57,35 @@ pub fn content_htlcs(c: u64) -> u64 {
     let b = c % 16;
     if (4..=8).contains(&b) { b - 3 } else { 0 }
 }
+/// all HTLCs (received + offered) of a holder content
+pub fn content_htlc_total(c: u64) -> u64 {
+    content_htlcs(c) + if c % 16 == 10 { 1 } else { 0 }
+}
 pub fn htlcs_of(c: u64) -> Vec<HTLCInfo2> {
     (0..content_htlcs(c))
         .map(|k| HTLCInfo2 { value_sat: 10_000, payment_hash: PaymentHash([k as u8 + 1; 32]), cltv_expiry: (k as u32 + 1) << 16 })
         .collect()
 }
+/// payment hashes of outgoing HTLCs (approved by keysend; the approval expires and is pruned by the heartbeat)
+pub const OUT_HASHES: [[u8; 32]; 2] = [[0xA1u8; 32], [0xA2u8; 32]];
+/// offered (outgoing) HTLCs of a holder content
+pub fn offered_of(c: u64) -> Vec<HTLCInfo2> {
+    if c % 16 == 10 { vec![HTLCInfo2 { value_sat: 10_000, payment_hash: PaymentHash(OUT_HASHES[0]), cltv_expiry: 2 << 16 }] } else { vec![] }
+}
+/// the holder content's HTLCs as wire records (LOCAL = offered by us, REMOTE = received)
+pub fn wire_htlcs_of(c: u64) -> Vec<vls_protocol::model::Htlc> {
+    let mut v = vec![];
+    for (side, l) in [(vls_protocol::model::Htlc::LOCAL, offered_of(c)), (vls_protocol::model::Htlc::REMOTE, htlcs_of(c))] {
+        for x in l {
+            v.push(vls_protocol::model::Htlc { side, amount: x.value_sat * 1000, payment_hash: vls_protocol::model::Sha256(x.payment_hash.0), ctlv_expiry: x.cltv_expiry });
+        }
+    }
+    v
+}
 pub fn all_contents() -> Vec<u64> {
     let mut v = vec![];
     for f in 0..3u64 {
-        for b in 0..=9u64 {
+        for b in 0..=10u64 {
             v.push(b + 16 * f);
         }
     }
@@ -72,7 +94,7 @@ pub fn all_contents() -> Vec<u64> {
 /// verdict of the content rules for commitment number `n` (the initial commitment may not carry HTLCs)
 pub fn content_policy_ok(c: u64, n: u64) -> bool {
     let b = c % 16;
-    b <= 3 || ((4..=8).contains(&b) && n != 0)
+    b <= 3 || (((4..=8).contains(&b) || b == 10) && n != 0)
 }
 /// id of a holder `CommitmentInfo2` (the WHOLE record: balances, HTLC lists, feerate); 999 = none of ours
 pub fn holder_content_id(i: &CommitmentInfo2) -> u64 {
@@ -81,7 +103,7 @@ pub fn holder_content_id(i: &CommitmentInfo2) -> u64 {
         if !i.is_counterparty_broadcaster
             && i.to_broadcaster_value_sat == th
             && i.to_countersigner_value_sat == tc
-            && i.offered_htlcs.is_empty()
+            && i.offered_htlcs == offered_of(c)
             && i.received_htlcs == htlcs_of(c)
             && i.feerate_per_kw == content_feerate(c)
         {
@@ -197,6 +219,19 @@ pub fn cp_content_policy_ok(id: u64, n: u64) -> bool {
     !c.bad && (n != 0 || (c.offered.is_empty() && c.received.is_empty() && c.to_cp == 0))
 }
 
+/// independent re-statement of BOLT-3 `derive_secret` (monitor side)
+pub fn bolt3_derive(secret: [u8; 32], bits: u32, idx: u64) -> [u8; 32] {
+    use lightning_signer::bitcoin::hashes::{sha256, Hash};
+    let mut res = secret;
+    for b in (0..bits).rev() {
+        if idx >> b & 1 == 1 {
+            res[(b / 8) as usize] ^= 1 << (b % 8);
+            res = sha256::Hash::hash(&res).to_byte_array();
+        }
+    }
+    res
+}
+
 /// the fact `check_holder_tx_signatures` is expected to establish for signature variant `v` on a
 /// content with `h` HTLCs: 1 = valid, 0 = invalid, 2 = out-of-bounds panic (see `SigFact`)
 pub fn sig_fact(v: u64, h: u64) -> u64 {
@@ -227,6 +262,8 @@ pub struct Monitors {
 
 pub struct World {
     pub persister: Arc<dyn Persist>,
+    /// manual clock shared by all incarnations of the node (keysend approvals expire after 60 s)
+    pub clock: Arc<ManualClock>,
     pub seed: [u8; 32],
     pub node: Arc<Node>,
     pub channel_id: ChannelId,
@@ -253,13 +290,13 @@ fn config() -> NodeConfig {
     }
 }
 
-fn services(persister: Arc<dyn Persist>) -> NodeServices {
+fn services(persister: Arc<dyn Persist>, clock: Arc<ManualClock>) -> NodeServices {
     let policy = make_default_simple_policy(Network::Testnet);
     NodeServices {
         validator_factory: Arc::new(SimpleValidatorFactory::new_with_policy(policy)),
         starting_time_factory: make_genesis_starting_time_factory(Network::Testnet),
         persister,
-        clock: Arc::new(StandardClock()),
+        clock,
         trusted_oracle_pubkeys: vec![],
     }
 }
@@ -295,6 +332,13 @@ pub fn cp_secret(cp_keys: &lightning_signer::lightning::sign::InMemorySigner, n:
         s
     }
 }
+/// the unrelated (off-tree) secret for commitment `n` (`cp_secret(_, n, 1)`)
+pub fn alt_secret(n: u64) -> [u8; 32] {
+    let mut s = [0x11u8; 32];
+    s[0] = 0x01;
+    s[24..32].copy_from_slice(&(n.wrapping_mul(2654435761).wrapping_add(1)).to_be_bytes());
+    s
+}
 /// id of the point of `cp_secret(n, kind)`
 pub fn cp_point_id(n: u64, kind: u64) -> u64 {
     1000 + (n % 100_000) * 4 + kind
@@ -305,7 +349,8 @@ impl World {
         let persister: Arc<dyn Persist> = Arc::new(KVVPersister(MemoryKVVStore::new([3u8; 16]), JsonFormat));
         let seed = [7u8; 32];
         let cfg = config();
-        let node = Arc::new(Node::new(cfg, &seed, vec![], services(persister.clone())));
+        let clock = Arc::new(ManualClock::new(std::time::Duration::from_secs(1_700_000_000)));
+        let node = Arc::new(Node::new(cfg, &seed, vec![], services(persister.clone(), clock.clone())));
         persister.new_node(&node.get_id(), &cfg, &*node.get_state()).unwrap();
         persister.new_tracker(&node.get_id(), &node.get_tracker()).unwrap();
         node.add_allowlist(&[]).unwrap();
@@ -314,6 +359,7 @@ impl World {
         let setup = make_test_channel_setup();
         let mut w = World {
             persister,
+            clock,
             seed,
             node,
             channel_id,
@@ -356,6 +402,18 @@ impl World {
             setup: self.setup.clone(),
             counterparty_keys: self.cp_keys.clone().expect("cp keys"),
         }
+    }
+
+    /// is the outgoing payment with this hash approved right now (keysend present in the node state)?
+    pub fn approved_now(&self, hash: &[u8; 32]) -> bool {
+        // `validate_payments`: an outgoing HTLC without incoming counterpart passes iff the hash has an
+        // invoice/keysend, or at least a tracked payment entry (the "uninvoiced existing payment" tolerance)
+        let st = self.node.get_state();
+        st.invoices.contains_key(&PaymentHash(*hash)) || st.payments.contains_key(&PaymentHash(*hash))
+    }
+    /// would `NodeState::validate_payments` accept a commitment with these outgoing HTLCs now?
+    pub fn outgoing_ok(&self, outgoing: &[HTLCInfo2]) -> bool {
+        outgoing.iter().all(|h| self.approved_now(&h.payment_hash.0))
     }
 
     pub fn is_ready(&self) -> bool {
@@ -499,7 +557,7 @@ impl World {
             }
             for c in all_contents() {
                 let (th, tc) = content(c);
-                let ctx = channel_commitment(&nc, &cc, n, content_feerate(c), th, tc, vec![], htlcs_of(c));
+                let ctx = channel_commitment(&nc, &cc, n, content_feerate(c), th, tc, offered_of(c), htlcs_of(c));
                 let ok = self
                     .node
                     .with_channel(&self.channel_id, |chan| {
@@ -594,6 +652,15 @@ impl World {
         }
     }
 
+    /// a channel created by this code always has a secret store; it must not disappear
+    fn check_store_present(&mut self, after: &str) {
+        if let Some(e) = self.estate() {
+            if e.counterparty_secrets.is_none() {
+                self.violation("c03-store-lost-secret", format!("after {} the channel has no counterparty secret store any more (later revocations cannot be chain-checked)", after));
+            }
+        }
+    }
+
     fn on_cp_revoked(&mut self, n: u64, secret: [u8; 32], pt_of_secret: u64) {
         match self.mon.cp_signed.get(&n).copied() {
             None => self.violation("c03-revocation-unsigned", format!("accepted a revocation of counterparty commitment {} that was never signed", n)),
@@ -607,7 +674,27 @@ impl World {
                 self.violation("c03-revocation-changed", format!("accepted a second, different secret for counterparty commitment {}", n));
             }
         }
+        // accepted secrets must chain under the BOLT-3 derivation tree, whatever the store says: if an earlier
+        // accepted index lies in the subtree of the new one, the new secret must derive the earlier one
+        {
+            let idx_n = INITIAL - (n & INITIAL);
+            let pos = (0..48).find(|b| idx_n >> b & 1 == 1).unwrap_or(48);
+            for (m, sm) in self.mon.cp_revoked.clone() {
+                if m >= n {
+                    continue;
+                }
+                let idx_m = INITIAL - m;
+                if pos < 64 && (idx_m >> pos) == (idx_n >> pos) && bolt3_derive(secret, pos, idx_m) != sm {
+                    self.violation(
+                        "c03-revocation-not-chained",
+                        format!("accepted the revocation secret of {} from which the earlier accepted secret of {} is not derivable", n, m),
+                    );
+                    break;
+                }
+            }
+        }
         self.mon.cp_revoked.insert(n, secret);
+        self.check_store_present("an accepted revocation");
         // every verified secret must stay retrievable from the compact store
         if let Some(e) = self.estate() {
             if let Some(st) = &e.counterparty_secrets {
@@ -635,7 +722,7 @@ impl World {
         if !ok {
             return None;
         }
-        let mut ctx = channel_commitment(&nc, &cc, n, content_feerate(c), th, tc, vec![], htlcs_of(c));
+        let mut ctx = channel_commitment(&nc, &cc, n, content_feerate(c), th, tc, offered_of(c), htlcs_of(c));
         let (sig, hs) = counterparty_sign_holder_commitment(&nc, &cc, &mut ctx);
         Some((ctx, sig, hs))
     }
@@ -746,7 +833,7 @@ impl World {
         let full = match &ctx {
             Some(ctx) => {
                 let (full, fact) = self.verify_sigs(ctx, &sig, &hsigs);
-                if fact != expect_fact {
+                if fact != (if expect_fact == 3 { 1 } else { expect_fact }) {
                     self.tags.insert(format!("HARNESS-sigfact-mismatch:{}vs{}", fact, expect_fact));
                 }
                 full
@@ -761,7 +848,7 @@ impl World {
                     let parameters = params.as_holder_broadcastable();
                     let trusted = ctx.tx.as_ref().unwrap().trust();
                     let keys = trusted.keys();
-                    let htlcs = Channel::htlcs_info2_to_oic(&vec![], &received);
+                    let htlcs = Channel::htlcs_info2_to_oic(&offered_of(c), &received);
                     let scripts = build_tx_scripts(
                         keys,
                         th,
@@ -773,13 +860,13 @@ impl World {
                     )
                     .expect("scripts");
                     let wit: Vec<Vec<u8>> = scripts.iter().map(|s| s.as_bytes().to_vec()).collect();
-                    chan.validate_holder_commitment_tx(&tx, &wit, n, content_feerate(c), vec![], received.clone(), &sig, &hsigs)
+                    chan.validate_holder_commitment_tx(&tx, &wit, n, content_feerate(c), offered_of(c), received.clone(), &sig, &hsigs)
                 });
                 return (r, full);
             }
         }
         let r = self.node.with_channel(&self.channel_id, |chan| {
-            chan.validate_holder_commitment_tx_phase2(n, content_feerate(c), th, tc, vec![], received.clone(), &sig, &hsigs)
+            chan.validate_holder_commitment_tx_phase2(n, content_feerate(c), th, tc, offered_of(c), received.clone(), &sig, &hsigs)
         });
         (r, full)
     }
@@ -857,7 +944,7 @@ impl World {
                             let nc = self.node_ctx();
                             self.cp_keys = Some(make_test_counterparty_keys(&nc, &self.channel_id, CHANNEL_VALUE));
                             // outgoing HTLCs (received by the counterparty) need an approved payment
-                            for hsh in [[0xA1u8; 32], [0xA2u8; 32]] {
+                            for hsh in OUT_HASHES {
                                 let _ = self.node.add_keysend(lightning_signer::util::test_utils::key::make_test_pubkey(1), PaymentHash(hsh), 30_000_000);
                             }
                             Ok("ok".into())
@@ -865,9 +952,24 @@ impl World {
                         Err(e) => Err(class_of(&e)),
                     }
                 }
+                "tick" => {
+                    // time passes and the periodic heartbeat runs (prunes expired keysends/invoices)
+                    let secs = num(1);
+                    let now = self.clock.now();
+                    self.clock.set(now + std::time::Duration::from_secs(secs));
+                    let _ = self.node.get_heartbeat();
+                    Ok("ok".into())
+                }
+                "keysend" => {
+                    // the node approves the outgoing payments (again)
+                    for hsh in OUT_HASHES {
+                        let _ = self.node.add_keysend(lightning_signer::util::test_utils::key::make_test_pubkey(1), PaymentHash(hsh), 30_000_000);
+                    }
+                    Ok("ok".into())
+                }
                 "restart" => {
                     let (node_id, entry) = self.persister.get_nodes().unwrap().into_iter().next().unwrap();
-                    let n = Node::restore_node(&node_id, entry, &self.seed, services(self.persister.clone())).map_err(|e| class_of(&e))?;
+                    let n = Node::restore_node(&node_id, entry, &self.seed, services(self.persister.clone(), self.clock.clone())).map_err(|e| class_of(&e))?;
                     self.node = n;
                     self.dead = false;
                     Ok("ok".into())
@@ -946,7 +1048,7 @@ impl World {
                                         continue;
                                     }
                                     let (th, tc) = content(c);
-                                    let ctx = channel_commitment(&self.node_ctx(), &self.chan_ctx(), n, content_feerate(c), th, tc, vec![], htlcs_of(c));
+                                    let ctx = channel_commitment(&self.node_ctx(), &self.chan_ctx(), n, content_feerate(c), th, tc, offered_of(c), htlcs_of(c));
                                     let cand = ctx.tx.as_ref().unwrap().trust().built_transaction().transaction.clone();
                                     if cand.compute_txid() == tx.compute_txid() {
                                         found = Some(n);
@@ -970,7 +1072,7 @@ impl World {
                 "signredundant" => {
                     let (n, c) = (num(1), num(2));
                     let (th, tc) = content(c);
-                    match self.node.with_channel(&self.channel_id, |chan| chan.sign_holder_commitment_tx_phase2_redundant(n, content_feerate(c), th, tc, vec![], htlcs_of(c))) {
+                    match self.node.with_channel(&self.channel_id, |chan| chan.sign_holder_commitment_tx_phase2_redundant(n, content_feerate(c), th, tc, offered_of(c), htlcs_of(c))) {
                         Ok(sig) => {
                             let n = self.attribute_holder_sig(&sig, n, "sign_holder_commitment_tx_phase2_redundant");
                             self.on_holder_sig(n, "sign_holder_commitment_tx_phase2_redundant");
@@ -1061,7 +1163,10 @@ impl World {
                             self.on_cp_revoked(n, bytes, ptid);
                             Ok("ok".into())
                         }
-                        Err(e) => Err(class_of(&e)),
+                        Err(e) => {
+                            self.check_store_present("a refused revocation");
+                            Err(class_of(&e))
+                        }
                     }
                 }
                 "hvalidate" => {
@@ -1072,7 +1177,7 @@ impl World {
                     let s = match &ctx {
                         Some(ctx) => {
                             let (full, f) = self.verify_sigs(ctx, &sig, &hsigs);
-                            if f != fact {
+                            if f != (if fact == 3 { 1 } else { fact }) {
                                 self.tags.insert(format!("HARNESS-sigfact-mismatch:{}vs{}", f, fact));
                             }
                             full
@@ -1080,15 +1185,7 @@ impl World {
                         None => false,
                     };
                     let h = self.handler(ver);
-                    let wire_htlcs: Vec<vls_protocol::model::Htlc> = htlcs_of(c)
-                        .iter()
-                        .map(|x| vls_protocol::model::Htlc {
-                            side: vls_protocol::model::Htlc::REMOTE,
-                            amount: x.value_sat * 1000,
-                            payment_hash: vls_protocol::model::Sha256(x.payment_hash.0),
-                            ctlv_expiry: x.cltv_expiry,
-                        })
-                        .collect();
+                    let wire_htlcs: Vec<vls_protocol::model::Htlc> = wire_htlcs_of(c);
                     let m = msgs::ValidateCommitmentTx2 {
                         commitment_number: n,
                         feerate: content_feerate(c),
@@ -1230,7 +1327,10 @@ impl World {
                             self.on_cp_revoked(n, bytes, ptid);
                             Ok("ok".into())
                         }
-                        Err(e) => Err(herr_class(&e)),
+                        Err(e) => {
+                            self.check_store_present("a refused revocation");
+                            Err(herr_class(&e))
+                        }
                     }
                 }
                 "hsigncp" => {
@@ -1298,7 +1398,7 @@ impl World {
                     let full = match &ctx {
                         Some(ctx) => {
                             let (full, f) = self.verify_sigs(ctx, &sig, &hsigs);
-                            if f != fact {
+                            if f != (if fact == 3 { 1 } else { fact }) {
                                 self.tags.insert(format!("HARNESS-sigfact-mismatch:{}vs{}", f, fact));
                             }
                             full
@@ -1314,7 +1414,7 @@ impl World {
                                     let params = chan.make_channel_parameters();
                                     let parameters = params.as_holder_broadcastable();
                                     let trusted = ctx.tx.as_ref().unwrap().trust();
-                                    let htlcs = Channel::htlcs_info2_to_oic(&vec![], &received);
+                                    let htlcs = Channel::htlcs_info2_to_oic(&offered_of(c), &received);
                                     let scripts = build_tx_scripts(
                                         trusted.keys(),
                                         th,
@@ -1344,15 +1444,7 @@ impl World {
                     for (i, w) in wit.iter().enumerate() {
                         psbt.outputs[i].witness_script = Some(ScriptBuf::from(w.clone()));
                     }
-                    let wire_htlcs: Vec<vls_protocol::model::Htlc> = received
-                        .iter()
-                        .map(|x| vls_protocol::model::Htlc {
-                            side: vls_protocol::model::Htlc::REMOTE,
-                            amount: x.value_sat * 1000,
-                            payment_hash: vls_protocol::model::Sha256(x.payment_hash.0),
-                            ctlv_expiry: x.cltv_expiry,
-                        })
-                        .collect();
+                    let wire_htlcs: Vec<vls_protocol::model::Htlc> = wire_htlcs_of(c);
                     let m = msgs::ValidateCommitmentTx {
                         tx: vls_protocol::serde_bolt::WithSize(tx),
                         psbt: vls_protocol::serde_bolt::WithSize(vls_protocol::psbt::PsbtWrapper { inner: psbt }),
